@@ -51,6 +51,11 @@ type LimCase struct {
 	//       client code does when it relays and syncs concurrently);
 	//   2 = scripted worst case: all ids first, then the bodies in reverse.
 	Order int `json:"order,omitempty"`
+	// Failing: RPCs per peer, issued and finished before every burst, whose
+	// handler ends with an error (headers from an index that is not on the best
+	// chain, a checkpoint nobody has, a request body that does not decode). A
+	// handler that ends with an error returns its slots like any other.
+	Failing int `json:"failing,omitempty"`
 	// Excluded names a known finding whose shape the generator replaced by the
 	// contiguous layout (counted in the evidence).
 	Excluded string `json:"excluded,omitempty"`
@@ -110,6 +115,9 @@ func genLim(t *rapid.T) LimCase {
 			p.Bursts = append(p.Bursts, rapid.IntRange(0, 3*c.PerPeer+1).Draw(t, "burst"))
 		}
 		c.Peers = append(c.Peers, p)
+	}
+	if rapid.IntRange(0, 2).Draw(t, "failroll") > 0 {
+		c.Failing = rapid.IntRange(1, 10).Draw(t, "failing")
 	}
 	c.Order = rapid.SampledFrom([]int{0, 0, 0, 1, 1, 2}).Draw(t, "order")
 	if c.Order != 0 && !holFixed && os.Getenv("VERIF_C18_ALL_LAYOUTS") == "" {
@@ -220,7 +228,51 @@ func runLim(c LimCase, cs *kit.CaseStats) error {
 	}
 	seq := 0
 	sawDrop := false
+	failSeq := 0
 	for b := 0; b < nbursts; b++ {
+		// handlers that end with an error, one after the other (so that none of
+		// them is dropped for a full subnet), all finished before the burst
+		if c.Failing > 0 {
+			for i := range c.Peers {
+				for k := 0; k < c.Failing; k++ {
+					failSeq++
+					bogus := types.BlockID{0xEE, byte(failSeq), byte(failSeq >> 8)}
+					var err error
+					switch failSeq % 3 {
+					case 0:
+						err = conns[i].Call(&gateway.RPCSendHeaders{Index: types.ChainIndex{Height: 7, ID: bogus}, Max: 5}, 20*time.Second)
+					case 1:
+						err = conns[i].Call(&gateway.RPCSendCheckpoint{Index: types.ChainIndex{Height: 7, ID: bogus}}, 20*time.Second)
+					default:
+						// the id of one RPC followed by the request body of another:
+						// the length prefix promises hashes that never come
+						err = func() error {
+							st, err := conns[i].T.DialStream()
+							if err != nil {
+								return err
+							}
+							defer st.Close()
+							st.SetDeadline(time.Now().Add(20 * time.Second))
+							if err := st.WriteID(&gateway.RPCSendTransactions{}); err != nil {
+								return err
+							} else if err := st.WriteRequest(&gateway.RPCSendHeaders{Index: types.ChainIndex{Height: 7, ID: bogus}, Max: 9}); err != nil {
+								return err
+							}
+							return st.ReadResponse(&gateway.RPCSendTransactions{})
+						}()
+					}
+					if err == nil {
+						return fmt.Errorf("a request the handler cannot serve (kind %d) was answered", failSeq%3)
+					}
+					// wait for that handler to be gone before the next one
+					if rest := p2px.WaitNoStacks(closeWatchdog, "syncer.(*Syncer).runPeer.func"); len(rest) > 0 {
+						cs.Inconclusive("failing-handler-not-finished")
+						return nil
+					}
+				}
+			}
+			cs.Class("bursts-after-failing-handlers")
+		}
 		gate.Shut()
 		gate.ResetMax()
 		n := make([]int, len(c.Peers))
@@ -470,7 +522,7 @@ func runLim(c LimCase, cs *kit.CaseStats) error {
 
 var c18LimProp = kit.Prop[LimCase]{
 	ID:   "C18",
-	Rule: "syncer RPC handler limits: per-peer limit 1..8, per-subnet limit <= 0 (disabled) or 1..8, IPv4 subnet prefix drawn from {0, 8, 16, 24, 31, 32} and the out-of-range values {-1, 33, 64} (documented: ignored, /32 used), IPv6 argument from {0, 48, 64, 128, -1, 129}, 1..4 scripted gateway peers dialing from 127.{40,41}.7.{1,2,3} (same /8, two /16 and /24, .2/.3 share a /31, so neighbouring prefix lengths group them differently), 2..3 bursts of 0..3L+1 concurrent SendV2Blocks / SendTransactions / SendHeaders requests per peer whose handlers are held inside a wrapping ChainManager. Oracle: concurrent handlers per peer <= L and per subnet <= S at all times; while held, every subnet reaches min(S, Σ min(L, n_p)) (so no slot leaked by an earlier burst, including bursts with subnet drops); every request is answered unless its subnet can exceed S (then it may be dropped, the connection stays usable); at least the admitted number is answered. Non-trivial = some peer's burst >= 2x the per-peer limit.",
+	Rule: "syncer RPC handler limits: per-peer limit 1..8, per-subnet limit <= 0 (disabled) or 1..8, IPv4 subnet prefix drawn from {0, 8, 16, 24, 31, 32} and the out-of-range values {-1, 33, 64} (documented: ignored, /32 used), IPv6 argument from {0, 48, 64, 128, -1, 129}, 1..4 scripted gateway peers dialing from 127.{40,41}.7.{1,2,3} (same /8, two /16 and /24, .2/.3 share a /31, so neighbouring prefix lengths group them differently), 2..3 bursts of 0..3L+1 concurrent SendV2Blocks / SendTransactions / SendHeaders requests per peer whose handlers are held inside a wrapping ChainManager; in two of three cases every burst is preceded by 1..10 RPCs per peer whose handler ends with an error (headers from an unknown index, unknown checkpoint, undecodable request body). Oracle: concurrent handlers per peer <= L and per subnet <= S at all times; while held, every subnet reaches min(S, Σ min(L, n_p)) (so no slot leaked by an earlier burst, including bursts with subnet drops); every request is answered unless its subnet can exceed S (then it may be dropped, the connection stays usable); at least the admitted number is answered. Non-trivial = some peer's burst >= 2x the per-peer limit.",
 	Assumptions: []string{
 		"per-peer limit <= 0 is not documented as 'disabled' (only the per-subnet option is) and is kept out of the generator",
 		"the subnet of a peer is computed by the harness from its source address and the configured prefix, independently of the syncer",
